@@ -66,12 +66,15 @@ def run(res):
         d = os.path.join(work, "case%d" % n)
         os.makedirs(os.path.join(d, "src"))
         os.makedirs(os.path.join(d, "out"))
-        src = os.path.join(d, "src", "prog.v1.asm")
+        # the default output names are derived from the source name: vary it (several dots, no extension, hidden file, blanks)
+        stem, ext = [("prog.v1", ".asm"), ("prog", ".asm"), ("a.b.c", ".s"), ("noext", ""), (".hidden", ".asm"), ("with space", ".asm"),
+                     ("UPPER.Case", ".ASM"), ("prog.asm", ".asm")][n % 8]
+        src = os.path.join(d, "src", stem + ext)
         open(src, "w").write(text)
         open(os.path.join(d, "src", "bystander.hex"), "w").write("keep me\n")
         args = ["-s", src]
         target = {"writable": "out/%s", "missing-dir": "nodir/%s", "is-a-directory": "out/%s", "overwrite": "out/%s"}[loc]
-        paths = {"code": os.path.join(d, "src", "prog.v1.hex"), "eeprom": os.path.join(d, "src", "prog.v1.eep.hex")}
+        paths = {"code": os.path.join(d, "src", stem + ".hex"), "eeprom": os.path.join(d, "src", stem + ".eep.hex")}
         if use_o:
             paths["code"] = os.path.join(d, target % "flash.hex")
             args += ["-o", paths["code"]]
